@@ -336,7 +336,7 @@ class Bad(Base):
 '''
 
 
-def override_rule(chk, repo, rule, base_qual, methods, why):
+def override_rule(chk, repo, rule, base_qual, methods, why, analysed=()):
     """the behaviour the other rules establish for `base_qual.<method>` must
     not be replaced in a subclass: an override inside the package is
     accepted only when it is a transparent forwarder to super()"""
@@ -359,6 +359,8 @@ def override_rule(chk, repo, rule, base_qual, methods, why):
             if f is None:
                 continue
             n += 1
+            if f"{c.qualname}.{meth}" in analysed:
+                continue        # an implementation the rules look at
             if not _is_transparent_forward(f):
                 offenders.append((c, f))
         chk.ob(rule, f"{base_qual}.{meth}", f"no subclass replaces {meth}() "
